@@ -54,6 +54,17 @@ def run_ccm(ctx, pid):
             ctx.cov["other_property_failures_seen"] = sorted({v["key"] for v in other})[:20]
         res["viol"] = own
         ctx.judge(res, theorem_hint=HINT[pid] + " (model of ImportExTransfer no longer matches the Go code)")
+        # whole blocks through the real LedgerStoreImp.ExecuteBlock / AddBlock on a real ledger (one transaction cache
+        # shared by the transactions of a block): failing imports followed by successful transactions, retries, replays
+        resb = ctx.correspondence("ccmblock", hbin, ["ccmblock"], drv, ["ccmblock"])
+        ownb = [v for v in resb["viol"] if v["key"].startswith(pid + ":")]
+        otherb = [v for v in resb["viol"] if not v["key"].startswith(pid + ":")]
+        if otherb:
+            ctx.cov["other_property_failures_seen"] = sorted(set(ctx.cov.get("other_property_failures_seen", [])) | {v["key"] for v in otherb})[:20]
+        resb["viol"] = ownb
+        if otherb and not ownb and resb["mismatches"]:
+            resb["viol"] = otherb[:1]  # the disagreement is explained by a concrete input found for a sibling property
+        ctx.judge(resb, theorem_hint=HINT[pid] + " (block execution no longer matches the model: transaction atomicity / shared cache)")
     return hbin
 
 
